@@ -469,15 +469,19 @@ Section Sem.
       ret (sel3 lo hi right)
     end.
 
-  (* _enter_for_ (784-797) *)
-  Definition rt_enter_for (n : nid) (next : option val) (iterable : val) : M (option val) :=
+  (* _enter_for_ (793-807): the specific hook may replace the element; a falsy answer of the generic hook to an
+     element raises StopIteration (EStop), which _gen_ handles like the exhaustion of the iterator; a falsy answer
+     to the report of the exhaustion itself changes nothing *)
+  Inductive efr := EVal (v : option val) | EStop.
+  Definition rt_enter_for (n : nid) (next : option val) (iterable : val) : M efr :=
     RE n ;; CF n ;;
     do hi <- ev "enter_control_flow" n [AB (match next with Some _ => true | None => false end)];
     do lo <- ev "enter_for" n [match next with Some v => AV v | None => AO "StopIteration()" end; AV iterable];
     match lo, hi with
-    | Some a, _ => ret (Some (arg_val a))
-    | None, Some a => stuck "enter_control_flow override of a for loop: outside the model"
-    | None, None => ret next
+    | Some a, _ => ret (EVal (Some (arg_val a)))
+    | None, Some a => do t <- truth (arg_val a);
+                      if t then ret (EVal next) else ret (match next with Some _ => EStop | None => EVal next end)
+    | None, None => ret (EVal next)
     end.
 
   (* ---------------------------------------------------------------- the interpreter *)
@@ -598,16 +602,24 @@ Section Sem.
       match ts with [] => ret tt | t :: r => store t v ;; store_all r v end.
 
     (* a for loop over an iterator value: plain (gen = None) or wrapped by _gen_ (gen = Some iid) *)
+    (* _gen_ (815-831): StopIteration -- of the iterator or raised by _enter_for_ -- is answered by
+       _enter_for_(StopIteration) and _exit_for_; a StopIteration raised by that second _enter_for_ escapes the
+       generator, which Python turns into a RuntimeError *)
+    Definition gen_exhausted (n : nid) (iterable : val) : M (option val) :=
+      do r2 <- rt_enter_for n None iterable;
+      match r2 with
+      | EVal _ => rt_event "_exit_for_" n ;; ret None
+      | EStop => raise_builtin "RuntimeError" "generator raised StopIteration"
+      end.
     Definition for_next (gen : option nid) (itv iterable : val) : M (option val) :=
       match gen with
       | None => prim (p_next itv)
       | Some n =>
         do nx <- prim (p_next itv);
         match nx with
-        | Some v => rt_enter_for n (Some v) iterable
-        | None =>
-          (* StopIteration: _enter_for_(e) then _exit_for_ *)
-          rt_enter_for n None iterable ;; rt_event "_exit_for_" n ;; ret None
+        | Some v => do r <- rt_enter_for n (Some v) iterable;
+                    match r with EVal x => ret x | EStop => gen_exhausted n iterable end
+        | None => gen_exhausted n iterable
         end
       end.
 
@@ -1030,6 +1042,30 @@ Section Sem.
         ret (sel3 lo hi v)
       else ret v.
 
+    (* what the answers of enter_for (lo) and enter_control_flow (hi) make of one step of a for loop: the specific
+       hook replaces the element; a falsy answer of the generic hook to an element ends the loop -- exhaustion is then
+       reported; an answer to the report of an exhaustion changes nothing *)
+    Definition rfor_answer (n : nid) (nx : option val) (iterable : val) (lo hi : option earg) : M (option val) :=
+      match lo, hi with
+      | Some a, _ => ret (match nx with Some _ => Some (arg_val a) | None => None end)
+      | None, Some a =>
+        do t <- truth (arg_val a);
+        if t then ret nx
+        else
+          match nx with
+          | Some _ =>
+            announce true true n ;;
+            do hi2 <- ev "enter_control_flow" n [AB false];
+            do lo2 <- ev "enter_for" n [AO "StopIteration()"; AV iterable];
+            match lo2, hi2 with
+            | None, Some a2 => truth (arg_val a2) ;; ret None
+            | _, _ => ret None
+            end
+          | None => ret None
+          end
+      | None, None => ret nx
+      end.
+
     Fixpoint rexec (k : rsctx) (s : stmt) : M unit :=
       match s with
       | SExpr e => reval rc0 e ;; ret tt
@@ -1110,11 +1146,7 @@ Section Sem.
                           announce true true n ;;
                           do hi <- ev "enter_control_flow" n [AB (match nx with Some _ => true | None => false end)];
                           do lo <- ev "enter_for" n [match nx with Some v => AV v | None => AO "StopIteration()" end; AV iterable];
-                          match lo, hi with
-                          | Some a, _ => ret (match nx with Some _ => Some (arg_val a) | None => None end)
-                          | None, Some _ => stuck "enter_control_flow override of a for loop: outside the model"
-                          | None, None => ret nx
-                          end
+                          rfor_answer n nx iterable lo hi
                         else ret nx);
              match nx' with
              | None =>
@@ -2017,11 +2049,7 @@ Section Sem.
                   bind (announce true true n) (fun _ =>
                   bind (ev "enter_control_flow" n [AB (match nx with Some _ => true | None => false end)]) (fun hi =>
                   bind (ev "enter_for" n [match nx with Some v => AV v | None => AO "StopIteration()" end; AV iterable]) (fun lo =>
-                  match lo, hi with
-                  | Some a, _ => ret (match nx with Some _ => Some (arg_val a) | None => None end)
-                  | None, Some _ => stuck "enter_control_flow override of a for loop: outside the model"
-                  | None, None => ret nx
-                  end)))
+                  rfor_answer n nx iterable lo hi)))
                 else ret nx) (fun nx' =>
           match nx' with
           | None =>
@@ -2113,6 +2141,49 @@ Section Sem.
           bind (match name with Some x => unbind x | None => ret tt end) (fun _ => reraise r)))))
         else rexec_handlers k tryn e rest)).
       Proof. reflexivity. Qed.
+
+      (* one step of a covered for loop: the generator protocol of the runtime = the reference *)
+      Lemma for_step n itv iterable (EO RO : M unit) (ES RS : val -> M unit) :
+        meq EO RO -> (forall v, meq (ES v) (RS v)) ->
+        meq (bind (for_next (Some n) itv iterable) (fun nx => match nx with None => EO | Some v => ES v end))
+            (bind (prim (p_next itv)) (fun nx =>
+             bind (bind (announce true true n) (fun _ =>
+                   bind (ev "enter_control_flow" n [AB (match nx with Some _ => true | None => false end)]) (fun hi =>
+                   bind (ev "enter_for" n [match nx with Some v => AV v | None => AO "StopIteration()" end; AV iterable]) (fun lo =>
+                   rfor_answer n nx iterable lo hi)))) (fun nx' =>
+             match nx' with
+             | None => bind (for_exit n) (fun _ => RO)
+             | Some v => RS v
+             end))).
+      Proof.
+        intros HO HS. unfold for_next. ms.
+        assert (Hexit : meq (bind (rt_event "_exit_for_" n) (fun _ => EO)) (bind (for_exit n) (fun _ => RO))).
+        { unfold rt_event, for_exit. cbv beta iota. rewrite announce_on_cf. ms. ms. ms. ms. ms. mtop. exact HO. }
+        assert (Hexit' : forall K : option val -> M unit, meq (K None) EO ->
+                  meq (bind (rt_event "_exit_for_" n) (fun _ => bind (ret None) K)) (bind (for_exit n) (fun _ => RO))).
+        { intros K HK. eapply meq_trans; [apply bind_cong; [reflexivity|intros ?; mtop; exact HK]|exact Hexit]. }
+        (* the exhaustion protocol: _enter_for_(StopIteration) never raises *)
+        assert (Hexh : forall K : option val -> M unit, meq (K None) EO ->
+                  meq (bind (gen_exhausted n iterable) K)
+                      (bind (announce true true n) (fun _ =>
+                       bind (ev "enter_control_flow" n [AB false]) (fun hi2 =>
+                       bind (ev "enter_for" n [AO "StopIteration()"; AV iterable]) (fun lo2 =>
+                       bind (match lo2, hi2 with
+                             | None, Some a2 => bind (truth (arg_val a2)) (fun _ => ret None)
+                             | _, _ => ret None
+                             end) (fun nx' => match nx' with None => bind (for_exit n) (fun _ => RO) | Some v => RS v end)))))).
+        { intros K HK. unfold gen_exhausted, rt_enter_for. rewrite announce_on_cf. ms. ms. ms. ms. split_opts; mtop;
+            try (apply Hexit'; exact HK).
+          ms. match goal with t : bool |- _ => destruct t end; mtop; apply Hexit'; exact HK. }
+        match goal with nx : option val |- _ => destruct nx as [v|] end.
+        - unfold rt_enter_for. rewrite announce_on_cf. ms. ms. ms. ms. unfold rfor_answer. split_opts; mtop; try (apply HS).
+          ms. match goal with t : bool |- _ => destruct t end; mtop; [apply HS|].
+          eapply meq_trans; [apply Hexh; reflexivity|]. ms. ms. ms. mtop. reflexivity.
+        - unfold rfor_answer, gen_exhausted, rt_enter_for. rewrite announce_on_cf. ms. ms. ms. ms. split_opts; mtop;
+            try (apply (Hexit' (fun nx => match nx with Some v => ES v | None => EO end)); reflexivity).
+          ms. match goal with t : bool |- _ => destruct t end; mtop;
+            apply (Hexit' (fun nx => match nx with Some v => ES v | None => EO end)); reflexivity.
+      Qed.
 
       Theorem refine_stmt :
         (forall s, src_s s = true -> ok_s s = true -> forall k, meq (exec calli bound (instr_s H (kc k) s)) (rexec k s))
@@ -2216,15 +2287,12 @@ Section Sem.
             assert (Hloop : forall j, meq (floop x (Some n) a0 a (instr_ss H (kc {| r_loop := Some (n, true); r_fn := r_fn k |}) body) (instr_ss H (kc k) orelse) j)
                                           (rfloop k n x a0 a body orelse j)); [|apply Hloop].
             induction j as [|j IHj]; [reflexivity|].
-            cbn [floop rfloop]. rewrite C1. unfold for_next. mnorm. mstep. destruct a1 as [v|].
-            * unfold rt_enter_for. rewrite announce_on_cf. mnorm. mstep. mstep. mstep. mstep.
-              destruct a4, a3; try (intros s; reflexivity); rewrite !bind_ret_l; mstep; rewrite IHb; mstep;
-                match goal with r : res unit |- _ => destruct r end; try reflexivity; apply IHj.
-            * unfold rt_enter_for. rewrite announce_on_cf. mnorm. mstep. mstep. mstep. mstep.
-              destruct a4, a3; try (intros s; reflexivity); rewrite !bind_ret_l; cbn [negb andb];
-                unfold for_exit; rewrite announce_on_cf; mnorm; msteps; rewrite IHo;
-                rewrite <- (bind_ret_r (rexec_list k orelse)) at 1; mstep;
-                match goal with u : unit |- _ => destruct u end; reflexivity.
+            cbn [floop rfloop]. rewrite C1. cbn [negb andb].
+            apply for_step.
+            * rewrite IHo. rewrite <- (bind_ret_r (rexec_list k orelse)) at 1. mstep.
+              match goal with u : unit |- _ => destruct u end; reflexivity.
+            * intros v. mstep. rewrite IHb. mstep.
+              match goal with r : res unit |- _ => destruct r end; try reflexivity; apply IHj.
           + destruct (instr_not_gen it c0 Hs1) as [G1 G2]. rewrite G1, G2.
             change c0 with (ic rc0). rewrite (RE_ it Hs1 Ho1 rc0). mstep. mstep.
             assert (Hloop : forall j, meq (floop x None a0 a (instr_ss H (kc {| r_loop := Some (n, true); r_fn := r_fn k |}) body)
@@ -2927,11 +2995,7 @@ Section Sem.
                                   bind (announce true true n) (fun _ =>
                                   bind (ev "enter_control_flow" n [AB (match b1 with Some _ => true | None => false end)]) (fun hi =>
                                   bind (ev "enter_for" n [match b1 with Some v => AV v | None => AO "StopIteration()" end; AV b]) (fun lo =>
-                                  match lo, hi with
-                                  | Some a, _ => ret (match b1 with Some _ => Some (arg_val a) | None => None end)
-                                  | None, Some _ => stuck "enter_control_flow override of a for loop: outside the model"
-                                  | None, None => ret b1
-                                  end)))
+                                  rfor_answer n b1 b lo hi)))
                                 else ret b1) (ret b1)).
           { destruct (cov "enter_for"); qs; apply sim_ret; reflexivity. }
           apply sim_meq_r with (m2' := bind (ret b1) (fun nx => match nx with
